@@ -125,6 +125,9 @@ func refEncode(keys, vals []uint64, links []string) []byte {
 	return b
 }
 
+// persistV1: the store under inspection holds v1marshaler nodes (set by the harness for FMT != 0).
+var persistV1 bool
+
 // loadPNode fetches and decodes a stored node (nil when missing or undecodable).
 func loadPNode(st *vStore, name string, level int, top bool) *pnode {
 	i := st.find(name)
@@ -132,6 +135,28 @@ func loadPNode(st *vStore, name string, level int, top bool) *pnode {
 		return nil
 	}
 	keys, vals, links, ok := refDecode(st.blobs[i])
+	if persistV1 {
+		// v1marshaler nodes in the harness marshaler's encoding (FMT=1/2 runs)
+		keys, vals, links, ok = nil, nil, nil, false
+		if kb, vb, ls, pok := symParseNode(st.blobs[i]); pok {
+			ok = true
+			for _, x := range kb {
+				if len(x) != 8 {
+					ok = false
+				} else {
+					keys = append(keys, verifGetU64(x))
+				}
+			}
+			for _, x := range vb {
+				if len(x) != 8 {
+					ok = false
+				} else {
+					vals = append(vals, verifGetU64(x))
+				}
+			}
+			links = ls
+		}
+	}
 	if !ok {
 		return nil
 	}
